@@ -41,8 +41,9 @@ def _fasta_and_peptides(data_seed, n_prot=12, decoys=True):
     for p in range(n_prot):
         prots["sp|P%03d|PROT%d" % (p, p)] = [pep() for _ in range(4)]
     names = list(prots)
-    for a, b in zip(names[0::4], names[1::4]):          # anagram pairs: b gets a's peptides with two residues swapped
-        for q in prots[a][:3]:
+    for a, b in zip(names[0::2], names[1::2]):          # anagram pairs: b gets a's peptides with two residues swapped
+        prots[b] = prots[b][:2]
+        for q in prots[a]:
             j = next(j for j in range(len(q) - 2) if q[j] != q[j + 1])
             prots[b].append(q[:j] + q[j + 1] + q[j] + q[j + 2:])
     prots[names[2]].append(prots[names[3]][0])          # a shared peptide
@@ -64,12 +65,18 @@ def _fasta_and_peptides(data_seed, n_prot=12, decoys=True):
 def table(cfg):
     """the PSM table of a configuration (a pure function of cfg)"""
     df = small_df(n_spec=cfg["n_spec"], dup=2, seed=cfg["data_seed"], n_feat=3, n_pep=max(10, cfg["n_spec"] // 3))
+    good = ((df["Label"] == 1) & (df["ScanNr"] % 3 != 0)).values        # a second informative feature, so that the
+    df["f1"] = df["f1"] + 1.5 * good                                    # learned model beats the best single feature
     if cfg.get("proteins"):
         _, triples = _fasta_and_peptides(cfg["data_seed"])
         rnd = random.Random("c08-psm-%d" % cfg["data_seed"])
         peps, prots = [], []
-        for lab in df["Label"]:
-            t, name, dcy = rnd.choice(triples)
+        names = list(dict.fromkeys(t[1] for t in triples))
+        present = set(names[0::2])      # proteins "in the sample": only they get the well-scoring target PSMs, so
+        pres = [t for t in triples if t[1] in present]      # that decoy proteins win some of the other pairs
+        absent = [t for t in triples if t[1] not in present]
+        for lab, is_good in zip(df["Label"], good):
+            t, name, dcy = rnd.choice(pres if is_good else absent)
             peps.append(t if lab == 1 else dcy)
             prots.append(name if lab == 1 else "decoy_" + name)
         df["Peptide"], df["Proteins"] = peps, prots
@@ -108,7 +115,7 @@ def analysis(cfg, d, keep_raw=False, models_in=None):
         np.random.seed(cfg["global_seed"])
     seed, k, w = cfg["seed"], cfg["folds"], cfg["workers"]
     df = table(cfg)
-    path = d / ("in.parquet" if cfg["fmt"] == "parquet" else "in.tsv")
+    path = d / ("in.parquet" if cfg["fmt"] == "parquet" else "in.pin")
     if cfg["fmt"] == "parquet":
         df.to_parquet(path, index=False)
     else:
@@ -167,6 +174,8 @@ def _case_of(diffs):
 
 
 def base_cfg(seed, data_seed=3, n_spec=150, folds=3, workers=1, fmt="parquet", proteins=None, global_seed=None):
+    if proteins:
+        fmt = "text"        # protein-level output cannot be produced from Parquet input (proteins.parquet is written as csv)
     return {"seed": seed, "data_seed": data_seed, "n_spec": n_spec, "folds": folds, "workers": workers, "fmt": fmt,
             "proteins": proteins, "global_seed": global_seed}
 
@@ -178,7 +187,7 @@ def check_same_process(tier, seed):
     variants = [dict(fmt="parquet", workers=1), dict(fmt="text", workers=2)]
     if tier != "quick":
         variants += [dict(fmt="text", workers=1, folds=2), dict(fmt="parquet", workers=4, folds=4),
-                     dict(fmt="parquet", workers=2, proteins="with_decoys")]
+                     dict(fmt="text", workers=2, proteins="with_decoys")]
     ck = Check("repeat_in_process", "mokapot.read_pin + brew + assign_confidence (+ OnDiskPsmDataset._split)",
                "%d analysis seeds x %d configurations (format, workers, folds%s), 300 PSMs / 150 spectra, 3 features; each "
                "run twice in one process, the global numpy RNG seeded differently before each run"
@@ -234,47 +243,61 @@ def worker_main(cfg):
         print(json.dumps(analysis(cfg, d)))
 
 
-def _sessions(ck, cfgs, hashseeds, what):
-    jobs = [(ci, h) for ci in range(len(cfgs)) for h in hashseeds]
-    with ThreadPoolExecutor(max_workers=8) as ex:
-        results = list(ex.map(lambda j: run_worker(cfgs[j[0]], j[1]), jobs))
+_POOL = ThreadPoolExecutor(max_workers=8)
+
+
+def launch(cfgs, hashseeds):
+    """start one fresh interpreter per (cfg, hash seed); returns [(cfg index, hash seed, future)]"""
+    return [(ci, h, _POOL.submit(run_worker, cfgs[ci], h)) for ci in range(len(cfgs)) for h in hashseeds]
+
+
+def _sessions(ck, cfgs, hashseeds, what, pending=None):
+    pending = pending or launch(cfgs, hashseeds)
     for ci, cfg in enumerate(cfgs):
-        rs = [(h, r) for (cj, h), r in zip(jobs, results) if cj == ci]
+        rs = [(h, f.result()) for cj, h, f in pending if cj == ci]
         errs = [(h, r["error"]) for h, r in rs if "error" in r]
         ok = [(h, r) for h, r in rs if "error" not in r]
         ck.case((what, sorted((k, str(v)) for k, v in cfg.items())),
                 nontrivial=bool(ok) and all(r["learned"] for _, r in ok) and len(ok) >= 2)
+        mode = ("-" + cfg["proteins"].replace("_", "-") + "-fasta") if cfg.get("proteins") else ""
         for h, e in errs:
-            ck.violation("worker-fails", "fresh interpreter (PYTHONHASHSEED=%s) failed: %s" % (h, e[-300:]),
+            ck.violation("worker-fails" + mode, "fresh interpreter (PYTHONHASHSEED=%s) failed: %s" % (h, e[-300:]),
                          {"cfg": cfg, "hashseeds": [h]})
-        for (h0, r0), (h1, r1) in zip(ok, ok[1:]):
-            if str(r0["hashseed"]) != str(h0) or str(r1["hashseed"]) != str(h1):
+        for h, r in ok:
+            if str(r["hashseed"]) != str(h):
                 ck.violation("harness-hashseed-not-set", "worker did not see its PYTHONHASHSEED", {"cfg": cfg})
+        for (h1, r1) in ok[1:]:
+            h0, r0 = ok[0]
             diffs = _diff(r0, r1)
             if diffs:
-                ck.violation("%s-%s" % (what, _case_of(diffs)),
-                             "PYTHONHASHSEED=%s vs %s (same seed %d): %s differ" % (h0, h1, cfg["seed"], diffs),
+                ck.violation("hashseed%s:%s" % (mode, _case_of(diffs)),
+                             "PYTHONHASHSEED=%s vs %s (same seed %d%s): %s differ"
+                             % (h0, h1, cfg["seed"], "" if cfg.get("global_seed") is None else
+                                ", np.random.seed(%d)" % cfg["global_seed"], diffs),
                              {"cfg": cfg, "hashseeds": [h0, h1]})
-    return results
 
 
-def check_sessions(tier, seed):
+def session_plan(tier, seed):
     hs = [0, 12345] if tier == "quick" else [0, 1, 12345, 987654]
     seeds = [seed, seed + 1] if tier == "quick" else [seed + j for j in range(4)]
     variants = [dict(fmt="parquet", workers=1)]
     if tier != "quick":
         variants = [dict(fmt=f, workers=w) for f in ("parquet", "text") for w in (1, 2, 4)]
-    cfgs = [base_cfg(s, **v) for s in seeds for v in variants]
+    return [base_cfg(s, **v) for s in seeds for v in variants], hs, len(seeds), len(variants)
+
+
+def check_sessions(tier, seed, pending=None):
+    cfgs, hs, n_seeds, n_var = session_plan(tier, seed)
     ck = Check("fresh_interpreters", "mokapot.read_pin + brew + assign_confidence in `python -m harness.c08 --worker`",
                "PYTHONHASHSEED in %s x %d analysis seeds x %d configurations (format x max_workers), 300 PSMs; global numpy "
-               "RNG left at its (entropy-seeded) start-up state" % (hs, len(seeds), len(variants)),
+               "RNG left at its (entropy-seeded) start-up state" % (hs, n_seeds, n_var),
                "sha256 of fold assignments, coefficients+scaler, scores, each result file compared between sessions; "
                "non-trivial = all fold models trained and the learned score is used in every session")
-    _sessions(ck, cfgs, hs, "session")
+    _sessions(ck, cfgs, hs, "session", pending)
     return ck
 
 
-def check_protein_sessions(tier, seed):
+def protein_plan(tier, seed):
     hs = [0, 1, 12345] if tier == "quick" else [0, 1, 2, 3, 12345, 987654]
     seeds = [seed] if tier == "quick" else [seed, seed + 1, seed + 2]
     cfgs = []
@@ -282,13 +305,18 @@ def check_protein_sessions(tier, seed):
         cfgs.append(base_cfg(s, proteins="with_decoys"))
         # a target-only FASTA maps decoy peptides with the GLOBAL numpy RNG (by design); the CLI seeds it, so do we
         cfgs.append(base_cfg(s, proteins="target_only", global_seed=s))
+    return cfgs, hs, len(seeds)
+
+
+def check_protein_sessions(tier, seed, pending=None):
+    cfgs, hs, n_seeds = protein_plan(tier, seed)
     ck = Check("fresh_interpreters_proteins", "mokapot.read_fasta + brew + assign_confidence(proteins=...)",
                "PYTHONHASHSEED in %s x %d seeds x {FASTA with decoys, target-only FASTA with np.random.seed(seed) as the "
-               "CLI does}; 14 target proteins (shared peptide, subset protein, identical proteins, anagram peptides), "
-               "300 PSMs" % (hs, len(seeds)),
+               "CLI does}; 14 target proteins (shared peptide, subset protein, identical proteins, peptides of equal "
+               "composition in different proteins), 300 PSMs, tab-delimited input" % (hs, n_seeds),
                "sha256 of every result file incl. targets.proteins / decoys.proteins compared between sessions; "
                "non-trivial = models trained and learned score used")
-    _sessions(ck, cfgs, hs, "protein-session")
+    _sessions(ck, cfgs, hs, "protein-session", pending)
     return ck
 
 
@@ -360,8 +388,10 @@ if __name__ == "__main__":
         worker_main(json.loads(sys.argv[2]))
         sys.exit(0)
     a = args()
-    emit([check_same_process(a.tier, a.seed), check_sessions(a.tier, a.seed), check_model_order(a.tier, a.seed),
-          check_protein_sessions(a.tier, a.seed)],
+    plan_b, plan_d = session_plan(a.tier, a.seed), protein_plan(a.tier, a.seed)
+    pend_b, pend_d = launch(plan_b[0], plan_b[1]), launch(plan_d[0], plan_d[1])    # run while (a) and (c) compute
+    emit([check_same_process(a.tier, a.seed), check_model_order(a.tier, a.seed),
+          check_sessions(a.tier, a.seed, pend_b), check_protein_sessions(a.tier, a.seed, pend_d)],
          ["bit-identity is observed on this machine / BLAS / thread configuration only; sklearn and numpy numerics are "
           "not varied",
           "PEPs with the default 'qvality' algorithm (hist_nnls cannot run with the installed SciPy)",
